@@ -182,9 +182,8 @@ def upsertMeth (ms : List (Bytes × Meth)) (k : Bytes) (m : Meth) : List (Bytes 
 
 def starVerb : Bytes := [42]
 
-/-- registration at the end of the rule's way: conflict check, then store. `mk` builds the
-method record (and may fail: body / response_body selectors). -/
-def register (n : Node) (verb : Bytes) (mid : Nat) (mk : Unit → Outcome Meth) : Outcome Node :=
+/-- the conflict check and the store at the end of the rule's way. -/
+def registerCore (n : Node) (verb : Bytes) (mid : Nat) (mk : Unit → Outcome Meth) : Outcome Node :=
   match n with
   | .mk segs methods all vars =>
     let existing := if verb == starVerb then all else lookupMeth methods verb
@@ -197,6 +196,15 @@ def register (n : Node) (verb : Bytes) (mid : Nat) (mk : Unit → Outcome Meth) 
         else .ok (.mk segs (upsertMeth methods verb m) all vars)
       | .err k => .err k
       | .panic s => .panic s
+
+/-- registration at the end of the rule's way: `mk` builds the method record first (and may
+fail: an unresolvable body / response_body selector is an error even when the pattern is
+already bound), then the conflict check, then the store. -/
+def register (n : Node) (verb : Bytes) (mid : Nat) (mk : Unit → Outcome Meth) : Outcome Node :=
+  match mk () with
+  | .ok m => registerCore n verb mid (fun _ => .ok m)
+  | .err k => .err k
+  | .panic s => .panic s
 
 /-- the node below variable `name`, or a fresh one (`addVariable`). -/
 def varChild (vars : List (Var × Node)) (name : Bytes) : Node :=
